@@ -77,7 +77,80 @@ static void c05_child(const void *job, size_t n) {
 	res_finish();
 }
 
-void c05_register(void) { harness_register("c05.sched", c05_child); }
+
+/* ---------------------------------------------------------------- c05.hist (E2, normal mode against the simulated bus)
+ * Histories of: commands to three boards, a burst that exhausts a node's budget (messages held, released by an answer from
+ * the receiver thread), occupancy reports answered with SecAck mirrors by the receiver thread, node lost / node new, and
+ * bidib_send_sys_reset.  Oracle on the decoded wire of the WHOLE session, per destination node and per numbering epoch
+ * (session start, every MSG_SYS_RESET on the wire): 0* (connection probing) then 1,2,3,... with 255 -> 1; a 0 after
+ * the first numbered message of an epoch, a gap, a repeat or a number out of order is a violation.  What a node that logs
+ * in again (node new) must see first is not prescribed: continuing and restarting at 1 are both accepted. */
+#include "../fw/simbus.h"
+#include "../fw/cfg.h"
+enum { H_PING_M, H_PING_O, H_PING_L, H_POINT, H_SPEED, H_RESET, H_LOST, H_NEW, H_BURST, H_ANSWER, H_OCC, H_TICK, H_N };
+static const char *HN[H_N] = {"ping(master)", "ping(oc1)", "ping(lc1)", "switch_point(point1)", "set_train_speed(train1)", "sys_reset", "lost(lc1)", "new(lc1)", "burst-to-oc1(unanswered)", "answer(oc1)", "occ-report(master,SecAck)", "tick 2.5s"};
+static const char *hevname(int e) { return HN[e]; }
+static int hold_pings; static int h_hook(int node, const rc_msg_t *m) { return hold_pings && node == 1 && m->type == MSG_SYS_PING; }
+static int lc1_present = 1, held_outstanding;
+static void seq_oracle(const char *what) {
+	struct { uint8_t addr[4]; int last; int numbered; int relogin; } N[16]; int nn = 0;
+	for (int i = 0; i < SB.nlog; i++) {
+		if (SB.log[i].type == MSG_SYS_RESET) { nn = 0; continue; }       /* new epoch for every node (the reset itself carries 0) */
+		int k; for (k = 0; k < nn; k++) if (!memcmp(N[k].addr, SB.log[i].addr, 4)) break;
+		if (k == nn) { if (nn >= 16) continue; memcpy(N[k].addr, SB.log[i].addr, 4); N[k].last = 0; N[k].numbered = 0; N[k].relogin = 0; nn++; }
+		int s = SB.log[i].seq;
+		if (s == 0) { if (N[k].numbered) { char cls[200]; snprintf(cls, sizeof cls, "sequence-zero-after-numbering: number 0 used outside connection probing"); res_violation(cls, "%s: message %d (type %02x) to %02x.%02x.%02x carries 0 after %d", what, i, SB.log[i].type, N[k].addr[0], N[k].addr[1], N[k].addr[2], N[k].last); } continue; }
+		int exp = !N[k].numbered ? 1 : (N[k].last == 255 ? 1 : N[k].last + 1);
+		if (s != exp && !(s == 1 && lc1_present && N[k].addr[0] == 2)) {
+			char cls[200]; snprintf(cls, sizeof cls, "wire-reorder per-node sequence numbers not consecutive in wire order");
+			char seqs[600]; size_t so = 0; for (int j = i > 12 ? i - 12 : 0; j <= i && so + 20 < sizeof seqs; j++) so += (size_t) snprintf(seqs + so, sizeof seqs - so, "%02x.%02x:%d ", SB.log[j].addr[0], SB.log[j].addr[1], SB.log[j].seq);
+			res_violation(cls, "%s: destination %02x.%02x.%02x expected %d got %d (type %02x); recent wire (dest:seq) %s", what, N[k].addr[0], N[k].addr[1], N[k].addr[2], exp, s, SB.log[i].type, seqs); return; }
+		N[k].numbered = 1; N[k].last = s;
+	}
+}
+static int h_apply(int ev) {
+	switch (ev) {
+	case H_PING_M: bidib_ping("master", 1); break;
+	case H_PING_O: bidib_ping("oc1", 2); break;
+	case H_PING_L: if (!lc1_present) return 0; bidib_ping("lc1", 3); break;
+	case H_POINT: bidib_switch_point("point1", "reverse"); break;
+	case H_SPEED: bidib_set_train_speed("train1", 10, "master"); break;
+	case H_RESET: hold_pings = 0; held_outstanding = 0; bidib_send_sys_reset(0); hx_quiesce(); vs_sleep_us(3500000); hx_quiesce(); break;
+	case H_LOST: { if (!lc1_present) return 0; uint8_t d[9]; d[0] = ++SB.n[0].tab_version; d[1] = 2; memcpy(d + 2, UID_LC1, 7); SB.n[2].present = 0; lc1_present = 0; sb_send(0, MSG_NODE_LOST, d, 9); vs_point(); break; }
+	case H_NEW: { if (lc1_present) return 0; uint8_t d[9]; d[0] = ++SB.n[0].tab_version; d[1] = 2; memcpy(d + 2, UID_LC1, 7); SB.n[2].present = 1; SB.n[2].seq = 1; lc1_present = 1; sb_send(0, MSG_NODE_NEW, d, 9); vs_point(); break; }
+	case H_BURST: { if (held_outstanding) return 0; hold_pings = 1; t_bidib_node_address a = {1, 0, 0}; for (int i = 0; i < 11; i++) bidib_send_sys_ping(a, (uint8_t) i, 0); held_outstanding = 9; break; }
+	case H_ANSWER: { if (!held_outstanding) return 0; uint8_t d = 0; held_outstanding--; sb_send(1, MSG_SYS_PONG, &d, 1); vs_point(); break; }
+	case H_OCC: { uint8_t d = 1; sb_send(0, MSG_BM_OCC, &d, 1); vs_point(); break; }
+	case H_TICK: vs_sleep_us(2500000); break;
+	}
+	hx_quiesce(); bidib_flush(); hx_quiesce();
+	uint8_t *m; while ((m = bidib_read_message())) free(m); while ((m = bidib_read_error_message())) free(m);
+	return 1;
+}
+static void c05_hist_child(const void *job, size_t n) {
+	vs_dev_t devs[VS_MAXDEV]; int nd; size_t pl; const uint8_t *p = job_parse(job, n, devs, &nd, &pl);
+	int len = p[1]; const uint8_t *ev = p + 2;
+	hx_child_begin(NULL, 0, 0, NULL, 0, 0);
+	cfg_install_std(); SB.on_msg = h_hook; hold_pings = 0; lc1_present = 1; held_outstanding = 0;
+	if (hx_start_normal(0)) res_infra("normal start failed");
+	hx_quiesce(); vs_sleep_us(2500000); hx_quiesce();
+	uint8_t *m; while ((m = bidib_read_message())) free(m); while ((m = bidib_read_error_message())) free(m);
+	seq_oracle("after start-up");
+	for (int i = 0; i < len; i++) {
+		if (!h_apply(ev[i])) { if (i == len - 1) res_printf("N 1\n"); else res_infra("inapplicable event inside a history"); res_finish(); }
+		seq_oracle(HN[ev[i]]);
+		if (res_nviol() && i < len - 1) res_infra("violation before the last event");
+	}
+	hx_emit_ledger_violations("C05");
+	static char dump[1 << 16]; size_t o = hx_dump_tx(dump, sizeof dump);
+	o += (size_t) snprintf(dump + o, sizeof dump - o, " lc1=%d hold=%d out=%d simseq=%d,%d,%d v%d", lc1_present, hold_pings, held_outstanding, SB.n[0].seq, SB.n[1].seq, SB.n[2].seq, SB.n[0].tab_version);
+	o += (size_t) snprintf(dump + o, sizeof dump - o, " pending="); o += env_input_dump(dump + o, sizeof dump - o);
+	hx_hash_t h; hx_hash_init(&h); hx_hash_add(&h, dump, o);
+	if (getenv("VERIF_IN_REPLAY")) { res_printf("X %s\n", dump); for (int i = 0; i < SB.nlog; i++) res_printf("X wire %d: %02x.%02x.%02x seq=%d type=%02x\n", i, SB.log[i].addr[0], SB.log[i].addr[1], SB.log[i].addr[2], SB.log[i].seq, SB.log[i].type); }
+	res_printf("S %llx %llx\n", (unsigned long long) h.a, (unsigned long long) h.b);
+	res_finish();
+}
+void c05_register(void) { harness_register("c05.sched", c05_child); harness_register("c05.hist", c05_hist_child); }
 
 int c05_run(const char *tier) {
 	int thorough = !strcmp(tier, "thorough");
@@ -99,6 +172,11 @@ int c05_run(const char *tier) {
 			rep_count("contended_execs", s.contended_execs);
 		}
 	}
+	{ uint8_t hp[1] = {0}; const char *d = getenv("VERIF_DEPTH");
+	  e2_spec_t hs = { .harness = "c05.hist", .param = hp, .nparam = 1, .nevents = H_N, .max_depth = d ? atoi(d) : (thorough ? 5 : 4), .label = "c05.hist", .evname = hevname };
+	  e2_explore(&hs); states += hs.states; transitions += hs.transitions; execs += hs.execs; if (!hs.exhaustive) exhaustive = 0;
+	  char sb[200]; size_t o = 0; for (int i = 0; i <= hs.depth_completed + 1 && i < 16; i++) o += (size_t) snprintf(sb + o, sizeof sb - o, "%ld ", hs.states_by_depth[i]);
+	  rep_note("c05.hist (normal mode: commands, budget burst / release by the receiver, SecAck mirrors, node lost/new, system reset): %d events, depth %d, new states by depth: %s", H_N, hs.depth_completed, sb); }
 	rep_count("states", states); rep_count("transitions", transitions); rep_count("executions", execs);
 	rep_count("completed_bound", minbound); rep_flag("exhaustive", exhaustive);
 	return 0;
